@@ -28,7 +28,7 @@ static int only_prop02;
 
 static int m_member[MAXN], m_count;
 
-enum { O_INS = 1, O_INS_HINT, O_ERASE_KEY, O_ERASE_SELF, O_CLEAR, O_SWAPPAIR };
+enum { O_INS = 1, O_INS_HINT, O_ERASE_KEY, O_ERASE_SELF, O_CLEAR, O_SWAPPAIR, O_SWAPSELF };
 #define OP(c, a) ((mc_op_t)((c) | ((a) << 8)))
 #define OC(o) ((o) & 0xff)
 #define OA(o) (((o) >> 8) & 0xff)
@@ -81,6 +81,7 @@ static void w_setup(int cfg, int thorough)
     for (i = 0; i < N; i++) w_ops[w_nops++] = OP(O_ERASE_SELF, i);
     w_ops[w_nops++] = OP(O_CLEAR, 0);
     w_ops[w_nops++] = OP(O_SWAPPAIR, 0);
+    w_ops[w_nops++] = OP(O_SWAPSELF, 0);
 }
 static const char *w_config_desc(void) { return cfgdesc; }
 
@@ -134,12 +135,42 @@ static int t_foreach(int t, cstl_bintree_const_visit_func_t *v, void *p, int rev
     cstl_bintree_foreach_dir_t d = rev ? CSTL_BINTREE_FOREACH_DIR_REV : CSTL_BINTREE_FOREACH_DIR_FWD;
     return RB ? cstl_rbtree_foreach(&T[t].rb, v, p, d) : cstl_bintree_foreach(&T[t].bt, v, p, d);
 }
+static void t_swap_self(void) { if (RB) cstl_rbtree_swap(&T[0].rb, &T[0].rb); else cstl_bintree_swap(&T[0].bt, &T[0].bt); }
 static void t_swap(void) { if (RB) cstl_rbtree_swap(&T[0].rb, &T[1].rb); else cstl_bintree_swap(&T[0].bt, &T[1].bt); }
+
+/* a third, constant tree of three elements of its own: visit callbacks of the tree under test walk it (a callback may use other containers) */
+static union { struct cstl_bintree bt; struct cstl_rbtree rb; } AUX;
+static struct elem auxpool[3];
+static int auxcookie, auxvcookie, aux_bad, aux_walks;
+static int cmp_aux(const void *a, const void *b, void *p) { if (p != (void *)&auxcookie) aux_bad++; return ((const struct elem *)a)->key - ((const struct elem *)b)->key; }
+static void aux_build(void)
+{
+    int i;
+    memset(&AUX, 0xA5, sizeof AUX); memset(auxpool, 0x5A, sizeof auxpool);
+    if (RB) cstl_rbtree_init(&AUX.rb, cmp_aux, &auxcookie, offsetof(struct elem, rn2)); else cstl_bintree_init(&AUX.bt, cmp_aux, &auxcookie, offsetof(struct elem, bn2));
+    for (i = 0; i < 3; i++) { auxpool[i].key = (i + 1) % 3; auxpool[i].idx = 100 + i; if (RB) cstl_rbtree_insert(&AUX.rb, &auxpool[i], NULL); else cstl_bintree_insert(&AUX.bt, &auxpool[i], NULL); }
+}
+static int aux_n, aux_stop, aux_last;
+static int cb_aux(const void *e, cstl_bintree_visit_order_t ord, void *p)
+{
+    const struct elem *x = e;
+    if (p != (void *)&auxvcookie || x < auxpool || x >= auxpool + 3) { aux_bad++; return 0; }
+    if (ord == CSTL_BINTREE_VISIT_ORDER_MID || ord == CSTL_BINTREE_VISIT_ORDER_LEAF) { if (aux_last >= 0 && x->key < aux_last) aux_bad++; aux_last = x->key; aux_n++; if (aux_n == aux_stop) return 77; }
+    return 0;
+}
+static void aux_walk(void)
+{
+    int r, stop = (aux_walks & 1) ? 2 : 0;     /* alternately a complete walk and one stopped at the second element */
+    aux_n = 0; aux_stop = stop; aux_last = -1; aux_walks++;
+    r = RB ? cstl_rbtree_foreach(&AUX.rb, cb_aux, &auxvcookie, CSTL_BINTREE_FOREACH_DIR_FWD) : cstl_bintree_foreach(&AUX.bt, cb_aux, &auxvcookie, CSTL_BINTREE_FOREACH_DIR_FWD);
+    if (stop ? (r != 77 || aux_n != 2) : (r != 0 || aux_n != 3)) aux_bad++;
+}
 
 static void w_init(void)
 {
     int i;
     shim_reset();
+    aux_build(); aux_bad = 0; aux_walks = 0;
     __asan_unpoison_memory_region(pool, sizeof pool);
     memset(pool, 0x5A, sizeof pool);
     for (i = 0; i < N; i++) { pool[i].key = keys[i]; pool[i].idx = i; pool[i].pad = 0x1111; pool[i].tail = 0x2222; m_member[i] = 0; }
@@ -177,6 +208,7 @@ static int v_idx[MAXV], v_ord[MAXV], v_n, v_stop_at;
 static int cb_visit(const void *e, cstl_bintree_visit_order_t ord, void *p)
 {
     if (p != (void *)&vcookie) vbad++;
+    aux_walk();         /* the callback walks another tree before it looks at its own arguments' consequences */
     if (v_n < MAXV) { v_idx[v_n] = idx_of(e); v_ord[v_n] = (int)ord; }
     v_n++;
     if (v_n > 3 * MAXN + 8) return 9999;                 /* watchdog: link cycle */
@@ -267,6 +299,25 @@ static void w_apply(mc_op_t o)
         for (i = 0; i < N; i++) m_member[i] = 0;
         m_count = 0;
         break;
+    case O_SWAPSELF:
+        /* swapping a tree object with itself changes nothing: it still takes an insert and an erase, and the audit that follows sees the same tree */
+        SHIM_CALL(ab, t_swap_self());
+        if (ab) break;
+        MC_CHECK(PC01 | PC02, t_size(0) == (size_t)m_count, "after swap(T,T) size is %zu, %d elements are held", t_size(0), m_count);
+        for (i = 0; i < N && m_member[i]; i++) ;
+        if (i < N && !mc_branch_dead) {
+            SHIM_CALL(ab, t_insert(0, &pool[i], NULL));
+            if (ab) break;
+            m_member[i] = 1; m_count++;
+            MC_CHECK(PC01 | PC02, t_size(0) == (size_t)m_count && untouched(&pool[i].rn2, sizeof pool[i].rn2) && untouched(&pool[i].bn2, sizeof pool[i].bn2) && pool[i].pad == 0x1111 && pool[i].key == keys[i] && pool[i].tail == 0x2222,
+                     "insert after swap(T,T): size %zu (expected %d) or the element was written outside the tree node the object was initialised with", t_size(0), m_count);
+            SHIM_CALL(ab, rp = t_erase(0, &pool[i]));
+            if (ab) break;
+            { int j = rp ? idx_of(rp) : -1;
+              MC_CHECK(PC01 | PC02, j >= 0 && m_member[j] && keys[j] == keys[i], "erase after swap(T,T) returned %s", rp ? "a pointer that is no held equal element" : "NULL");
+              if (j >= 0 && m_member[j]) { m_member[j] = 0; m_count--; } }
+        }
+        break;
     case O_SWAPPAIR:
         /* swap with a second, empty tree object; the content must be fully usable from the other object; then swap back */
         SHIM_CALL(ab, t_swap());
@@ -354,6 +405,7 @@ static void audit_tree(int t, unsigned props01)
         SHIM_CALL(ab, r = t_foreach(t, cb_visit, &vcookie, rev));
         if (ab) { MC_CHECK(props01, 0, "foreach aborted"); return; }
         MC_CHECK(props01, r == 0, "foreach(%s) returned %d with an always-zero visitor (%d visits)", rev ? "REV" : "FWD", r, v_n);
+        MC_CHECK(props01, aux_bad == 0, "a visit callback walked another, constant tree of three elements: that walk presented wrong elements, a wrong private pointer, a wrong count or a wrong result (%d anomalies)", aux_bad);
         if (mc_branch_dead) return;
         for (j = 0; j < v_n; j++) {
             int i = v_idx[j], o = v_ord[j];
@@ -502,6 +554,7 @@ static void w_opname(mc_op_t o, char *b, size_t n)
     case O_ERASE_SELF: snprintf(b, n, "erase(e%d key %d)", OA(o), keys[OA(o)]); break;
     case O_CLEAR: snprintf(b, n, "clear(poisoning callback)"); break;
     case O_SWAPPAIR: snprintf(b, n, "swap(T,empty);audit;swap back"); break;
+    case O_SWAPSELF: snprintf(b, n, "swap(T,T);insert;erase"); break;
     default: snprintf(b, n, "?"); break;
     }
 }
